@@ -323,7 +323,8 @@ def deltaReply (rows : List ReplyRow) (tsCol : String) (window : Option (Int × 
      | none => false) || extra.contains (replyInt r "last_check")
 
 def scanColumns (byLastCheck hasLastUpdate : Bool) : List String :=
-  ["last_check", "scheduled_downtime_depth", "acknowledged", "active_checks_enabled", "notifications_enabled", "modified_attributes"] ++
+  ["last_check", "scheduled_downtime_depth", "acknowledged", "active_checks_enabled", "notifications_enabled", "modified_attributes",
+   "in_check_period", "in_notification_period"] ++
   (if byLastCheck then ["next_check"] else []) ++ (if hasLastUpdate then ["last_update"] else [])
 
 /-- `checkChangedIntValues` on the scan columns -/
@@ -386,8 +387,8 @@ def applyDelta (w : World) (flags : Nat) (tab : Table) (cached : List Row) (repl
           | .int64 => replyInt r col.name != old.int col.name
           | _ => false
         let decision : Option Bool :=       -- none = skip, some full
-          if hasLU && hasLC then (if luChanged || lcChanged then some true else none)
-          else if hasLU then (if luChanged then some true else none)
+          if hasLU && hasLC then (if luChanged || lcChanged || intChanged then some true else none)
+          else if hasLU then (if luChanged || intChanged then some true else none)
           else if !hasLC then some true
           else some (lcChanged || intChanged)
         match decision with
